@@ -112,8 +112,10 @@ Fixpoint head_vals (e : enc) : list tval :=
 
 Definition zr (lo hi x : Z) : bool := ((lo <=? x) && (x <=? hi))%Z.
 
-(* the payloads the Rust variant types allow, plus what Encode needs to succeed and round-trip:
-   Simple not 24..=31; F16 payload exactly representable in half precision *)
+(* the payloads the Rust variant types allow, plus what Encode needs to round-trip by value:
+   F16 payload exactly representable in half precision.  (Simple(24..=31) is allowed: it is written as
+   f8 x and the tokenizer reads that back as the same token, although those bytes are not a well-formed
+   RFC 8949 item — finding F2b, stated in Props/C03.v.) *)
 Definition token_ok (t : token) : bool :=
   match t with
   | TkU8 n => n <? 256 | TkU16 n => n <? 65536 | TkU32 n => n <? 4294967296
@@ -128,7 +130,7 @@ Definition token_ok (t : token) : bool :=
   | TkBytes b => bytes_ok b && (len b <? 18446744073709551616)
   | TkString b => bytes_ok b && utf8_valid b && (len b <? 18446744073709551616)
   | TkArray n | TkMap n | TkTag n => n <? 18446744073709551616
-  | TkSimple n => (n <? 256) && negb ((24 <=? n) && (n <=? 31))
+  | TkSimple n => n <? 256
   | _ => true
   end.
 Definition tokens_ok (ts : list token) : bool := forallb token_ok ts.
